@@ -45,6 +45,7 @@ fn spec(tier: Tier) -> CheckSpec {
 			PartSpec::new("src", n, tier.q(600, 14400)),
 			PartSpec::new("depth", n, tier.q(600, 7200)),
 			PartSpec::new("hist", n.min(8), tier.q(600, 7200)),
+			PartSpec::new("tla", n.min(8), tier.q(600, 3600)),
 		],
 		totality: true,
 		exhaustive: true,
@@ -59,6 +60,7 @@ fn work(shard: &Shard, journal: &Journal, rep: &mut Report) {
 		"src" => part_src(shard, journal, rep),
 		"depth" => part_depth(shard, journal, rep),
 		"hist" => part_hist(shard, journal, rep),
+		"tla" => part_tla(shard, journal, rep),
 		p => panic!("unknown part {p}"),
 	}
 }
@@ -693,10 +695,91 @@ fn part_hist(shard: &Shard, journal: &Journal, rep: &mut Report) {
 }
 
 // ---------------------------------------------------------------------------------------------
+// top-level arguments and external variables: every configuration ends in a value or an error
+
+const TLA_FUNCS: &[&str] = &["1", "function() 1", "function(a) a", "function(a, b) [a, b]", "function(a, b = 2) [a, b]", "function(a = 1, b = 2, c = 3) [a, b, c]", "function(a) std.extVar('e')", "function(a) a.nope", "function(a, a2 = a) a2"];
+const TLA_NAMES: &[&str] = &["a", "b", "zz", ""];
+/// (name of the kind, is code, text)
+const TLA_VALUES: &[(&str, bool, &str)] = &[("string", false, "text é"), ("code", true, "{ k: 1 }"), ("code with a syntax error", true, "{ k: "), ("code with a runtime error", true, "error 'in tla'"), ("code importing a missing file", true, "import 'missing.libsonnet'"), ("code reading another ext var", true, "std.extVar('e')"), ("diverging code", true, "local f(x) = f(x + 1); f(0)")];
+
+fn tla_case(func: &str, args: &[(usize, usize)], ext: Option<usize>) -> Out {
+	use jrsonnet_evaluator::tla::TlaArg;
+	let imp = Imp::new();
+	let r = guarded(|| -> Result<String, jrsonnet_evaluator::Error> {
+		if let Some(e) = ext {
+			let (_, code, text) = TLA_VALUES[e];
+			if code {
+				imp.ci.add_ext_code("e", text)?;
+			} else {
+				imp.ci.add_ext_str("e".into(), text.into());
+			}
+		}
+		let v = imp.eval(func)?;
+		let owned: Vec<(&str, TlaArg)> = args.iter().map(|(n, k)| (TLA_NAMES[*n], if TLA_VALUES[*k].1 { TlaArg::InlineCode(TLA_VALUES[*k].2.to_owned()) } else { TlaArg::String(TLA_VALUES[*k].2.into()) })).collect();
+		let v = imp.apply_tla(v, &owned)?;
+		imp.manifest_min(&v)
+	});
+	match r {
+		Ok(Ok(s)) => Out::Json(s),
+		Ok(Err(e)) => error_out(&e),
+		Err(p) => Out::Panic(p),
+	}
+}
+
+fn part_tla(shard: &Shard, journal: &Journal, rep: &mut Report) {
+	// every function x every set of <= 2 (thorough 3) named arguments x value kinds x an optional external variable
+	let maxargs = shard.tier.q(2, 3);
+	let mut arg_sets: Vec<Vec<(usize, usize)>> = vec![vec![]];
+	for n in 1..=maxargs {
+		for_each_product(&vec![TLA_NAMES.len() * TLA_VALUES.len(); n], |_, c| {
+			let set: Vec<(usize, usize)> = c.iter().map(|x| (x / TLA_VALUES.len(), x % TLA_VALUES.len())).collect();
+			// names in ascending order, no repetition (a map)
+			if set.windows(2).all(|w| w[0].0 < w[1].0) {
+				arg_sets.push(set);
+			}
+		});
+	}
+	let mut idx = 0u64;
+	for func in TLA_FUNCS {
+		for args in &arg_sets {
+			for ext in [None, Some(0usize), Some(1), Some(2), Some(3)] {
+				idx += 1;
+				if !shard.mine(idx) {
+					continue;
+				}
+				let desc = format!("{func} with {:?}, ext e = {:?}", args.iter().map(|(n, k)| format!("{}={}", TLA_NAMES[*n], TLA_VALUES[*k].0)).collect::<Vec<_>>(), ext.map(|e| TLA_VALUES[e].0));
+				journal.note(idx, "tla", &desc);
+				let o = tla_case(func, args, ext);
+				rep.case(Some(fnv(desc.as_bytes())), outcome_key(&o));
+				if idx % 5003 == 0 {
+					rep.sample(|| json!({"configuration": desc, "outcome": o.short()}));
+				}
+				if let Out::Panic(p) = &o {
+					rep.violation(Violation {
+						class: format!("top-level call {}", panic_class(p)),
+						witness: desc.clone(),
+						detail: format!("expected a value or a Jsonnet error, got panic at {p}"),
+						cost: args.len() as u32 + u32::from(ext.is_some()),
+						replay: json!({"kind": "tla", "func": func, "args": args, "ext": ext}),
+					});
+				}
+			}
+		}
+	}
+	rep.count("tla_configurations", idx / shard.n.max(1));
+}
 
 fn replay(v: &Value) -> (bool, String) {
 	limit_memory(6 << 30);
 	match v["kind"].as_str().unwrap_or("") {
+		"tla" => {
+			let func = v["func"].as_str().unwrap_or("1").to_owned();
+			let func: &'static str = TLA_FUNCS.iter().find(|f| **f == func).copied().unwrap_or("1");
+			let args: Vec<(usize, usize)> = v["args"].as_array().map(|a| a.iter().map(|p| (p[0].as_u64().unwrap_or(0) as usize, p[1].as_u64().unwrap_or(0) as usize)).collect()).unwrap_or_default();
+			let ext = v["ext"].as_u64().map(|e| e as usize);
+			let o = tla_case(func, &args, ext);
+			return (matches!(o, Out::Panic(_)), o.short());
+		}
 		"code" | "src" | "journal" => {
 			let code = v["code"].as_str().or_else(|| v["text"].as_str()).or_else(|| v["case"].as_str()).unwrap_or("");
 			let imp = Imp::new();
